@@ -787,8 +787,19 @@ def evaluate_enum(chk, cases, stream="enum", thorough=False, with_model=True):
         if any(b == a for a, b in zip(objs, objs[1:])):
             chk.count(stream, "models-with-exact-ties")
         # ---- step 4: the predicate, on the implementation only
-        for clause, msg in predicate(c, im, tb, eps):
-            chk.fail(clause, case_desc(c, stream), jc, msg, {"yields": [[y[0], list(y[1])] for y in im["yields"]]})
+        fails = predicate(c, im, tb, eps)
+        desc = case_desc(c, stream)
+        if fails:
+            # is it the back end?  the recorded LP (rows + cuts in force at each solve) goes to an independent solver: CBC answering
+            # "no solution" for a model SCIP solves to optimality is a fault of the foreign component, recorded as a fact of the input
+            try:
+                faults = im["snap"].solver_faults()
+            except Exception:   # noqa
+                faults = []
+            if any(f[1] == "infeasible" for f in faults):
+                desc["cbc_infeasible_on_feasible"] = True
+        for clause, msg in fails:
+            chk.fail(clause, desc, jc, msg, {"yields": [[y[0], list(y[1])] for y in im["yields"]]})
         if thorough:
             best = min((o for _, _, o in tb), default=None)
             for sv in ("SCIP", "HIGHS"):
@@ -837,7 +848,9 @@ def evaluate_enum(chk, cases, stream="enum", thorough=False, with_model=True):
                     and (ms2 != ms or iy2 != iy))
             if same:
                 chk.count(stream, "threshold-band")
-        if not same:
+        if not same and desc.get("cbc_infeasible_on_feasible"):
+            chk.count(stream, "enum-vs-brute:explained-by-solver-fault")      # the enumeration theorems assume the solver contract CBC broke here
+        elif not same:
             chk.mismatch("enum-vs-brute", jc, [[str(o), sorted(s)] for o, s in ms], [[o, sorted(s)] for o, s in iy])
 
 
